@@ -284,6 +284,16 @@ def run_radar(case):
                 if not s.alive():
                     fails.append(("C16/radar/terminated_on_disconnect", f"radar --retry-tcp terminated while the server was unreachable (connection attempts timing out): {s.stderr()[-300:]}"))
                     return fails, w
+            if drop.get("gone"):
+                # the server goes away completely: every attempt is refused for a while
+                s.srv.go_away()
+                time.sleep(float(drop["gone"]))
+                alive = s.alive()
+                if not s.srv.come_back():
+                    raise Inconclusive("the feed port could not be taken back after the outage")
+                if not alive or not s.alive():
+                    fails.append(("C16/radar/terminated_on_disconnect", f"radar --retry-tcp terminated while the server was away for {drop['gone']} s (connection attempts refused): {s.stderr()[-300:]}"))
+                    return fails, w
             if not (s.srv.accept_real(30.0) if drop.get("stall") else s.srv.accept(12.0)):
                 if not s.alive():
                     fails.append(("C16/radar/terminated_on_disconnect", f"radar --retry-tcp terminated after the disconnect: {s.stderr()[-300:]}"))
@@ -485,6 +495,8 @@ def main():
         # played on every run: the server drops the connection and is then unreachable (attempts
         # time out instead of being refused) for longer than one connection timeout
         extra_cases=[{"client": "radar", "items": [["g", 3], ["g", 7], ["b", 4], ["g", 11], ["g", 12]], "cuts": [], "delays": [0], "drop": {"at": 5000, "retry": True, "reset": r, "stall": True}, "limit": False} for r in (False, True)]
+        # ... and the server goes away completely (attempts refused) for 1, 4 and 9 seconds
+        + [{"client": "radar", "items": [["g", 3], ["g", 7], ["b", 4], ["g", 11], ["g", 12]], "cuts": [], "delays": [0], "drop": {"at": 5000, "retry": True, "reset": g == 4, "gone": g}, "limit": False} for g in (1, 4, 9)]
         # ... and every malformed kind, each followed by a well-formed line, under every option set of both clients
         + [{"client": "1090", "items": [x for k in range(len(MALFORMED)) for x in (["b", k], ["g", k % 60])], "cuts": [], "delays": [0], "drop": None, "limit": False, "dbg": d, "pdisp": pd} for d in (False, True) for pd in (False, True)]
         + [{"client": "radar", "items": [x for k in range(len(MALFORMED)) for x in (["b", k], ["g", (k + 30) % 60])], "cuts": [], "delays": [0], "drop": None, "limit": lim} for lim in (False, True)],
